@@ -39,6 +39,9 @@ ListsQuick == {L0,
 ListsThorough == ListsQuick \cup
               {[js |-> <<2, 1>>, all |-> <<3>>,    print |-> <<1, 2>>]}
 ListsTiny == {L0, [js |-> <<1, 2>>, all |-> <<2>>, print |-> <<>>]}
+\* marker: instead of a fixed catalogue, class number i declares its own file i and the shared
+\* file 1 (four-class hierarchies: results must tell the classes apart)
+ListsPos == {[js |-> <<0>>, all |-> <<0>>, print |-> <<0>>]}
 ListsRel == {[js |-> <<1>>, all |-> <<>>, print |-> <<>>],
              [js |-> <<2, 1>>, all |-> <<1>>, print |-> <<>>]}
 ListsNone == {L0}
@@ -77,19 +80,23 @@ BaseChoices(n) == SeqsOver(n, MaxBases)
 ExtChoices(n) == {[ext |-> e, extl |-> <<>>] : e \in Exts \ {"list"}} \cup
                  (IF "list" \in Exts THEN {[ext |-> "list", extl |-> l] : l \in SeqsOver(n, 2) \ {<<>>}} ELSE {})
 
+ListsFor(n) == IF Lists = ListsPos
+               THEN {[js |-> <<n + 1>>, all |-> <<n + 1, 1>>, print |-> <<1>>]}
+               ELSE Lists
+
 Cands(n) ==
   {[bases |-> b, media |-> k, lists |-> L0, ext |-> "true", extl |-> <<>>, attr |-> a] :
       b \in BaseChoices(n), k \in Kinds \ {"def"}, a \in Attrs} \cup
   (IF "def" \in Kinds
    THEN {[bases |-> b, media |-> "def", lists |-> l, ext |-> e.ext, extl |-> e.extl, attr |-> a] :
-           b \in BaseChoices(n), l \in Lists, e \in ExtChoices(n), a \in Attrs}
+           b \in BaseChoices(n), l \in ListsFor(n), e \in ExtChoices(n), a \in Attrs}
    ELSE {})
 
 \* Quick-tier reduction of the catalogue: a class without listed bases gets extend = False with
 \* one Media content only (True / False select the same bases there), and of the two orders of
 \* a two-class extend list only the descending one is kept.
 Trimmed(r) ==
-  Trim => /\ (r.bases = <<>> /\ r.ext = "false") =>
+  Trim => /\ (r.bases = <<>> /\ r.ext = "false" /\ Lists # ListsPos) =>
                r.lists = (CHOOSE l \in Lists : l # L0 /\ \A m \in Lists \ {L0} : Len(l.js) >= Len(m.js))
           /\ (r.ext = "list" /\ Len(r.extl) = 2) => r.extl[1] > r.extl[2]
 
